@@ -81,6 +81,18 @@ def build_file(content, charset):
     return mf
 
 
+class LazyTrack(MidiTrack):
+    """A track that, while it is being written, makes the application load another file (with another charset):
+    a call nested inside a call. When the inner call ends, the outer call's charset must be in force again."""
+    nested = None
+
+    def __iter__(self):
+        for i, m in enumerate(list.__iter__(self)):
+            if self.nested is not None and i == self.nested['at']:
+                self.nested['fn']()
+            yield m
+
+
 def texts_of(mf):
     out = []
     for tr in mf.tracks:
@@ -128,7 +140,8 @@ class Charset(BaseEngine):
         cs = pick(rng, CHARSETS)
         direction = weighted(rng, (('load', 3), ('save', 3), ('chain', 4)))
         plan = {'prop': prop, 'charset': cs, 'content': self.gen_content(rng, cs), 'direction': direction,
-                'via': pick(rng, ('file', 'filename'))}
+                'via': pick(rng, ('file', 'filename')),
+                'nested': pick(rng, (None, None, None, 'ok', 'fail'))}
         if direction == 'chain':
             calls = []
             pool = [''.join(pick(rng, POOL[:10]) for _ in range(rng.randint(1, 3))) for _ in range(3)]
@@ -333,6 +346,37 @@ class Charset(BaseEngine):
                                               f'{texts_of(back2) if tag == "ok" else back2!r}')
         if cs in ('utf-16', 'utf-32') and any(s for _, s in want):
             stats['probe:utf16_bom_roundtrip'] += 1
+        if plan.get('nested') and want:
+            # a load with another charset happens in the middle of our save (nested call)
+            inner_cs = 'utf-16' if cs not in ('utf-16', 'UTF-16') else 'utf-8'
+            inner = MidiFile(type=1, charset=inner_cs)
+            inner.tracks.append(MidiTrack([MetaMessage('text', text='in', time=0)]))
+            _, inner_img = self.do_save(inner, simdisk.SimDisk(), 'file')
+            mf2 = build_file(plan['content'], cs)
+
+            def nested_call(inner_img=inner_img, inner_cs=inner_cs, fail=plan['nested'] == 'fail'):
+                try:
+                    MidiFile(file=simdisk.SimDisk().handle_from(inner_img[:len(inner_img) - (3 if fail else 0)]),
+                             charset=inner_cs)
+                except Exception:
+                    pass
+            for ti, tr in enumerate(mf2.tracks):
+                lt = LazyTrack(tr)
+                lt.nested = {'at': len(tr) // 2, 'fn': nested_call}
+                mf2.tracks[ti] = lt
+                break
+            tag2, image2 = self.do_save(mf2, disk, 'file')
+            if tag2 != 'ok':
+                raise Violation('save-raised', f'saving with charset {cs} while a nested load ran in between raised '
+                                               f'{image2!r}')
+            _, _, _, w2 = simdisk.walk_smf(image2)
+            payloads2 = [(mt, bytes(p)) for tr in w2 for (_, kind, mt, p) in tr
+                         if kind == 'meta' and mt in {v[1] for v in TEXT_TYPES.values()}]
+            if payloads2 != expect:
+                raise Violation('payload-bytes', f'charset {cs}, with a load in charset {inner_cs} nested inside the save: '
+                                                 f'payloads {payloads2!r}, expected {expect!r}')
+            self.probe(f'save[{cs}] nested', stats, own)
+            stats['fault:nested_call'] += 1
         stats['roundtrips'] += 1
         # default-charset load of a latin1 image behaves as latin1 (part of the probe family)
         # (2) every failure point
